@@ -544,6 +544,28 @@ func memRun(seed int64, kind string, calls []string, fill byte) []memStep {
 					_, _, err := ecdsa.BlindKeySignWithContext(cryptorand.Reader, sk, bk, m, ctx)
 					return resErr(err), ""
 				})
+			case "CreateKey":
+				// key objects are made from encodings lying in the caller's buffers: full length, shorter than the scalar
+				// size, and with a leading zero byte; the last one is the blind key of the following calls
+				full := p384Scalar(seed, fmt.Sprintf("mem-ec-bk-%d", n))
+				short := append([]byte{}, p384Scalar(seed, fmt.Sprintf("mem-ec-bks-%d", n))[16:]...)
+				lead0 := p384Scalar(seed, fmt.Sprintf("mem-ec-bkz-%d", n))
+				lead0[0] = 0
+				args := [][]byte{a.arg("arg.blind", fmt.Sprintf("bk%d-full", n), full, spare), a.arg("arg.blind", fmt.Sprintf("bk%d-short", n), short, spare),
+					a.arg("arg.blind", fmt.Sprintf("bk%d-lead0", n), lead0, spare)}
+				do(c, func() (string, string) {
+					var ds [][]byte
+					for _, enc := range args {
+						k, err := ecdsa.CreateKey(curve, enc)
+						if err != nil {
+							return "error", "error"
+						}
+						bk = k
+						ds = append(ds, k.D.Bytes(), k.X.Bytes(), k.Y.Bytes())
+					}
+					keySnap = keyBytes()
+					return "ok", digestOf(ds...)
+				})
 			case "Sign":
 				do(c, func() (string, string) { _, _, err := ecdsa.Sign(cryptorand.Reader, sk, m); return resErr(err), "" })
 			case "Verify":
